@@ -359,7 +359,36 @@ def k_same_shape_series(ctx, seed):
         del t, data
 
 
-KINDS = {"same_shape_series": k_same_shape_series, "tc_wrong_type": k_tc_wrong_type, "crc_helpers": k_crc_helpers, "tc": k_tc, "tc_refuse": k_tc_refuse, "tc_short": k_tc_short, "sec_header": k_sec_header, "view_history": k_view_history}
+def k_defaults(ctx, seed):
+    """Telecommands built with defaulted arguments, one of them extended in place through its public property afterwards
+    (tc.app_data += ...): every later telecommand built with defaults is the documented default again (empty application data,
+    APID 0, count 0, source id 0, all ack flags)."""
+    import random
+    tcm, sp, check_pus_crc = _imp()
+    r = random.Random(f"tcdefaults/{seed}")
+    case = {"k": "defaults", "seed": seed}
+    ctx.case("tc_defaults", seed, sample=case)
+    for i in range(3):
+        sv, sb = r.getrandbits(8), r.getrandbits(8)
+        ok, t = attempt(tcm.PusTc, service=sv, subservice=sb)
+        want = R.tc(0, 0, sv, sb, 0, 0xF, b"")
+        ok2, raw = attempt(lambda: bytes(t.pack())) if ok else (False, t)
+        if not ctx.check("tc.defaults", ok and ok2 and raw == want and bytes(t.app_data) == b"", "defaulted_arguments_are_not_the_documented_defaults", "first" if i == 0 else "after_an_earlier_object_was_extended_in_place", dict(case, index=i),
+                         observed=raw if ok2 else repr(raw), expected=want):
+            return
+        extra = r.randbytes(r.randrange(1, 5))
+        how = r.choice(("iadd", "extend_if_mutable", "assign"))
+        if how == "iadd":
+            t.app_data += extra
+        elif how == "extend_if_mutable" and isinstance(t.app_data, bytearray):
+            t.app_data.extend(extra)
+        else:
+            t.app_data = bytes(t.app_data) + extra
+        ok3, raw3 = attempt(lambda: bytes(t.pack()))
+        ctx.check("tc.defaults", ok3 and raw3 == R.tc(0, 0, sv, sb, 0, 0xF, extra), "octets_after_extending_the_default_data", how, dict(case, index=i))
+
+
+KINDS = {"defaults": k_defaults, "same_shape_series": k_same_shape_series, "tc_wrong_type": k_tc_wrong_type, "crc_helpers": k_crc_helpers, "tc": k_tc, "tc_refuse": k_tc_refuse, "tc_short": k_tc_short, "sec_header": k_sec_header, "view_history": k_view_history}
 ROUTES = ("ctor", "from_sp_header", "composite")
 
 
@@ -437,6 +466,8 @@ def run(ctx):
              rand_uint(r, 4), rnd_data(n), model_fed=r.random() < 0.5)
     for j in range(ctx.n(1500, 150_000)):
         k_view_history(ctx, ctx.seed * 1_000_003 + ctx.shard[0] * 100_003 + j)
+    for j in range(ctx.n(60, 6_000)):
+        k_defaults(ctx, ctx.seed * 1_000_003 + ctx.shard[0] * 100_003 + j)
     for j in range(ctx.n(120, 12_000)):
         k_same_shape_series(ctx, ctx.seed * 1_000_003 + ctx.shard[0] * 100_003 + j)
     # telecommands whose running CRC is exactly 0x0000 / 0xFFFF after the primary header, or after both headers
